@@ -72,7 +72,7 @@ inductive Out
   | panic
 deriving Repr
 
-structure Chain where
+structure RChain where
   blocks : List (Hash × Block) := [(genesisHash, genesisBlock)]
   atHeight : List (Nat × Hash) := [(0, genesisHash)]
   pruneHeight : Nat := 0
@@ -83,16 +83,16 @@ def setKV {α} (k : Nat) (v : α) : List (Nat × α) → List (Nat × α)
   | [] => [(k, v)]
   | (k', v') :: rest => if k' == k then (k, v) :: rest else (k', v') :: setKV k v rest
 
-def Chain.localGet (c : Chain) (h : Hash) : Option Block := c.blocks.lookup h
+def RChain.localGet (c : RChain) (h : Hash) : Option Block := c.blocks.lookup h
 
 /-- `Store`: existing blocks are left alone -/
-def Chain.store (c : Chain) (b : Block) : Chain :=
+def RChain.store (c : RChain) (b : Block) : RChain :=
   match c.blocks.lookup b.hash with
   | some _ => c
   | none => { c with blocks := (b.hash, b) :: c.blocks, atHeight := setKV b.view b.hash c.atHeight }
 
 /-- `Get`: local, else fetched from peers and stored under the requested hash -/
-def Chain.get (c : Chain) (h : Hash) : Chain × Option Block :=
+def RChain.get (c : RChain) (h : Hash) : RChain × Option Block :=
   match c.blocks.lookup h with
   | some b => (c, some b)
   | none =>
@@ -100,10 +100,10 @@ def Chain.get (c : Chain) (h : Hash) : Chain × Option Block :=
     | some b => ({ c with blocks := (h, b) :: c.blocks, atHeight := setKV b.view b.hash c.atHeight }, some b)
     | none => (c, none)
 
-def Chain.fuel (c : Chain) : Nat := c.blocks.length + c.fetchable.length + 2
+def RChain.fuel (c : RChain) : Nat := c.blocks.length + c.fetchable.length + 2
 
 /-- `Extends(block, target)` -/
-def Chain.extendsAux : Nat → Chain → Block → Block → Chain × Bool
+def RChain.extendsAux : Nat → RChain → Block → Block → RChain × Bool
   | 0, c, _, _ => (c, false)
   | fuel + 1, c, cur, target =>
     if cur.view > target.view then
@@ -112,37 +112,43 @@ def Chain.extendsAux : Nat → Chain → Block → Block → Chain × Bool
       | (c', none) => (c', false)
     else (c, cur.hash == target.hash)
 
-def Chain.extends (c : Chain) (b target : Block) : Chain × Bool := Chain.extendsAux c.fuel c b target
+def RChain.extends (c : RChain) (b target : Block) : RChain × Bool := RChain.extendsAux c.fuel c b target
 
-/-- first loop of `PruneToHeight`: the committed views, walking `blockAtHeight` / parent links -/
-def Chain.committedViewsAux : Nat → Chain → Nat → List Nat → List Nat
+/-- first loop of `PruneToHeight` (with `fix: PruneToHeight identifies the committed branch by
+hash`): hashes of the committed block and its stored ancestors down to the prune height -/
+def RChain.committedHashesAux : Nat → RChain → Block → List Hash → List Hash
   | 0, _, _, acc => acc
-  | fuel + 1, c, h, acc =>
-    if h < c.pruneHeight then acc else
-    match (c.atHeight.lookup h).bind (fun x => c.blocks.lookup x) with
+  | fuel + 1, c, block, acc =>
+    match c.blocks.lookup block.parent with
     | none => acc
-    | some block =>
-      match c.blocks.lookup block.parent with
-      | none => acc
-      | some parent =>
-        if parent.view < c.pruneHeight then acc
-        else committedViewsAux fuel c parent.view (parent.view :: acc)
+    | some parent =>
+      if parent.view < c.pruneHeight then acc
+      else committedHashesAux fuel c parent (parent.hash :: acc)
 
 /-- second loop of `PruneToHeight`: from `height` down to `pruneHeight + 1` -/
-def Chain.pruneAux (committedViews : List Nat) : Nat → Nat → Chain → List Block → Chain × List Block
+def RChain.pruneAux (committedHashes : List Hash) : Nat → Nat → RChain → List Block → RChain × List Block
   | 0, _, c, acc => (c, acc)
   | fuel + 1, h, c, acc =>
     if h > c.pruneHeight then
-      let forked := if committedViews.contains h then none else (c.atHeight.lookup h).bind (fun x => c.blocks.lookup x)
+      let forked := match (c.atHeight.lookup h).bind (fun x => c.blocks.lookup x) with
+        | some b => if committedHashes.contains b.hash then none else some b
+        | none => none
       let acc' := match forked with | some b => acc ++ [b] | none => acc
       let c' := { c with atHeight := c.atHeight.filter (fun p => p.1 != h) }
-      pruneAux committedViews fuel (h - 1) c' acc'
+      pruneAux committedHashes fuel (h - 1) c' acc'
     else (c, acc)
 
-def Chain.pruneToHeight (c : Chain) (committedHeight height : Nat) : Chain × List Block :=
-  let cv := Chain.committedViewsAux (c.fuel + height + 2) c committedHeight [committedHeight]
-  let (c', forked) := Chain.pruneAux cv (height + 1) height c []
+def RChain.pruneToHeight (c : RChain) (committed : Block) (height : Nat) : RChain × List Block :=
+  let ch := RChain.committedHashesAux (c.fuel + 2) c committed [committed.hash]
+  let (c', forked) := RChain.pruneAux ch (height + 1) height c []
   ({ c' with pruneHeight := height }, forked)
+
+/-- ghost history (never read by the protocol code): what the replica signed, and why it moved -/
+inductive GRec
+  | vote (b : Block) (sender : Nat)          -- signed a vote for `b`, proposed by `sender`
+  | tmo (view : Nat)                          -- signed a timeout for `view`
+  | adv (fromView : Nat) (certView : Nat) (timeout : Bool)   -- left `fromView` on a certificate of `certView`
+deriving Repr
 
 structure RState where
   view : Nat := 1
@@ -152,7 +158,7 @@ structure RState where
   lastVoted : Nat := 0
   lastProposed : Nat := 0
   lock : Block := genesisBlock
-  chain : Chain := {}
+  chain : RChain := {}
   timeouts : List TimeoutMsg := []
   lastTimeout : Option TimeoutMsg := none
   votes : List (Hash × List (Nat × Sig)) := []
@@ -163,6 +169,7 @@ structure RState where
   truth : List (Nat × Atom) := []
   nextBytes : Nat := 1
   out : List Out := []
+  ghost : List GRec := []
 deriving Repr
 
 abbrev M := StateM RState
@@ -288,7 +295,7 @@ def commitRule (c : RCfg) (b : Block) : M (Option Block) := do
     match ← qcRef b1.qc with
     | none => return none
     | some b2 =>
-    modify fun s => if b2.view > s.lock.view then { s with lock := b2 } else s
+    modify fun s => { s with lock := if b2.view > s.lock.view then b2 else s.lock }
     match ← qcRef b2.qc with
     | none => return none
     | some b3 =>
@@ -312,7 +319,7 @@ def commitRule (c : RCfg) (b : Block) : M (Option Block) := do
     match ← getBlock p.qc.hash with
     | none => return none
     | some gp =>
-    modify fun s => if gp.view > s.lock.view then { s with lock := gp } else s
+    modify fun s => { s with lock := if gp.view > s.lock.view then gp else s.lock }
     match ← getBlock gp.qc.hash with
     | none => return none
     | some ggp =>
@@ -343,7 +350,7 @@ def tryCommit (c : RCfg) (b : Block) : M Unit := do
     let s ← get
     if !(← commitInner (s.chain.fuel + 1) toCommit) then return
     let s ← get
-    let (c', forked) := s.chain.pruneToHeight s.committed.view toCommit.view
+    let (c', forked) := s.chain.pruneToHeight s.committed toCommit.view
     set { s with chain := c' }
     for f in forked do addEvent (.abort f)
 
@@ -419,14 +426,14 @@ def voterVerify (k : Keys) (c : RCfg) (id : Nat) (b : Block) (agg : Option AggQC
     if id != c.leader b.view then return .reject
     return .ok ()
 
-def voteFor (c : RCfg) (b : Block) : M Sig := do
+def voteFor (c : RCfg) (b : Block) (sender : Nat) : M Sig := do
   let sg ← signMsg c (blkMsg b.hash)
-  modify fun s => { s with lastVoted := b.view }
+  modify fun s => { s with lastVoted := b.view, ghost := s.ghost ++ [.vote b sender] }
   return sg
 
-def onValidPropose (k : Keys) (c : RCfg) (b : Block) : M Unit := do
+def onValidPropose (k : Keys) (c : RCfg) (id : Nat) (b : Block) : M Unit := do
   tryCommit c b
-  let sg ← voteFor c b
+  let sg ← voteFor c b id
   aggregateVote k c b sg
 
 def markProposed : Nat → Block → M Bool
@@ -462,7 +469,7 @@ def createAndPropose (k : Keys) (c : RCfg) (si : SyncInfo) : M Unit := do
     | .panic => emit .panic
     | .reject => return
     | .ok () =>
-      let sg ← voteFor c b
+      let sg ← voteFor c b c.id
       tryCommit c b
       emit (.sendPropose b agg)
       aggregateVote k c b sg
@@ -513,7 +520,7 @@ def advanceView (k : Keys) (c : RCfg) (si : SyncInfo) : M Unit := do
     | some q =>
       -- UpdateHighQC
       match ← getBlock q.hash with
-      | some nb => modify fun s => if nb.view ≤ s.highQC.view then s else { s with highQC := q }
+      | some nb => modify fun s => { s with highQC := if nb.view ≤ s.highQC.view then s.highQC else q }
       | none => pure ()
       let s ← get
       si := { si with qc := some s.highQC }
@@ -521,7 +528,7 @@ def advanceView (k : Keys) (c : RCfg) (si : SyncInfo) : M Unit := do
     let s ← get
     if view < s.view then return
     let newView := s.view + 1
-    modify fun s => { s with view := newView, lastTimeout := none }
+    modify fun s => { s with view := newView, lastTimeout := none, ghost := s.ghost ++ [.adv s.view view timeout] }
     addEvent (.viewChange newView timeout)
     let leader := c.leader newView
     if leader == c.id then createAndPropose k c si
@@ -598,7 +605,8 @@ def onLocalTimeout (k : Keys) (c : RCfg) : M Unit := do
   if c.agg then
     let ms ← signMsg c (k.tmo c.id view si.qc)
     t := { t with msgSig := some ms }
-  modify fun s => { s with lastTimeout := some t, lastVoted := if s.lastVoted < view then view else s.lastVoted }
+  modify fun s => { s with lastTimeout := some t, lastVoted := if s.lastVoted < view then view else s.lastVoted,
+                           ghost := s.ghost ++ [.tmo view] }
   emit (.sendTimeout t)
   onRemoteTimeout k c t
 
@@ -612,7 +620,7 @@ def onPropose (k : Keys) (c : RCfg) (id : Nat) (b : Block) (agg : Option AggQC) 
   match ← voterVerify k c id b agg with
   | .panic => emit .panic
   | .reject => return
-  | .ok () => onValidPropose k c b
+  | .ok () => onValidPropose k c id b
 
 /-- `Tick`: pop one event, run its handlers, then re-add the events deferred until its type -/
 def tick (k : Keys) (c : RCfg) : M Bool := do
